@@ -40,17 +40,6 @@ def check(ck):
     with ck.rule("R4"):
         g = repo.func(INP + "compute.py", "get_input_coercer")
         _wrapper_fold(ck, repo, g, side="inputs")
-        gv = FuncView(g)
-        apps = gv.calls("append")
-        texts = [unparse(a.args[0]) for a in apps]
-        ck.ob("get_input_coercer: list arm pushes inputs.list_coercer", "list_coercer" in texts, g, g.node, construct="fold:list-coercer")
-        nn = [t for t in texts if "non_null_coercer" in t]
-        ck.ob("get_input_coercer: non-null arm pushes inputs.non_null_coercer bound to the non-null type", nn == ["partial(non_null_coercer, graphql_type=inner_type)"], g, g.node,
-              construct="fold:non-null-bound", detail=str(nn))
-        for name, want in (("list_coercer", "tartiflette.coercers.inputs.list_coercer.list_coercer"),
-                           ("non_null_coercer", "tartiflette.coercers.inputs.non_null_coercer.non_null_coercer")):
-            got = repo.resolve_name(g.module, name)
-            ck.ob(f"get_input_coercer uses the *input* {name}", got == want, g, g.node, construct=f"fold:resolve:{name}", detail=str(got))
         _leaf_table(ck, repo, "input_coercer", "inputs")
         # who builds the variable coercer
         v = repo.func("tartiflette/execution/nodes/variable_definition.py", "variable_definition_node_to_executable")
